@@ -63,11 +63,13 @@ pub fn run(ctx: &mut Ctx) {
     let mut k = 0u64;
     for (w, h) in sizes {
         for (tname, target) in &tg {
-            for mips in [false, true] {
+            // the exact (pixel-preserving) BGRA target sees every image class at every size: transparent, opaque, mixed
+            let exact = tname == "blp2-raw3";
+            for (mips, forced_kind) in [(false, None), (true, None)].into_iter().chain(if exact { (0..5u64).map(|kd| (kd % 2 == 1, Some(kd))).collect::<Vec<_>>() } else { vec![] }) {
                 k += 1;
                 // quick tier: a third of the (size, target, mips) grid, rotating
-                if !ctx.thorough && (k + ctx.seed) % 3 != 0 { continue; }
-                let kind = ctx.rng.below(5);
+                if !ctx.thorough && forced_kind.is_none() && (k + ctx.seed) % 3 != 0 { continue; }
+                let kind = forced_kind.unwrap_or_else(|| ctx.rng.below(5));
                 let filter = *ctx.rng.pick(&[FilterType::Nearest, FilterType::Triangle]);
                 let src = gen_image(&mut ctx.rng, w, h, kind);
                 let desc = format!("{w}x{h} kind{kind} {tname} mips={mips} filter={filter:?}");
@@ -81,7 +83,7 @@ pub fn run(ctx: &mut Ctx) {
                 let parsed = if is0 { parse_blp_with_externals(&bytes, |i| preloaded_mipmaps(&ext, i)) } else { parse_blp(&bytes) };
                 let parsed = match parsed { Ok(p) => p, Err(e) => { ctx.out.oracle(false, "own-output-does-not-parse", &format!("{desc}: {e}")); continue; } };
                 let mut bad = false;
-                let mut fail = |ctx: &mut Ctx, tag: &str, what: String| { ctx.out.oracle(false, tag, &format!("{what} :: {desc}")); };
+                let fail = |ctx: &mut Ctx, tag: &str, what: String| { ctx.out.oracle(false, tag, &format!("{what} :: {desc}")); };
                 if parsed != blp { bad = true; fail(ctx, "parsed-structure-differs", format!("header {:?} vs {:?}; images {} vs {}", parsed.header, blp.header, parsed.image_count(), blp.image_count())); }
                 // second write is byte-identical
                 let again = if is0 { encode_blp0(&parsed).map(|r| r.blp_bytes) } else { encode_blp(&parsed) };
